@@ -370,6 +370,17 @@ class World:
         CTX.counters["cache_truncate"] += 1
         return {"k": k, "of": len(b)}
 
+    def op_cache_flip(self, k, xor):
+        """Bit rot: one byte of the stored report is XOR-ed with `xor`."""
+        b = self.cache_bytes()
+        if not b:
+            return {"noop": "no_cache"}
+        k = k % len(b)
+        nb = b[:k] + bytes([b[k] ^ (xor & 0xFF or 1)]) + b[k + 1:]
+        write_bytes(self.cache_file, nb)
+        CTX.counters["cache_flip"] += 1
+        return {"k": k, "of": len(b)}
+
     def op_cache_replace(self, kind):
         from .faults import CACHE_REPLACEMENTS, CACHE_DERIVED
         if kind in ("marker_torn", "marker_garbage"):
